@@ -299,8 +299,23 @@ type udpPeer struct {
 	mid      int32
 }
 
+// zeroTokens: the connection's token source hands out tokens that differ only in the number of leading zero bytes (01, 00 01,
+// 00 00 01, 00 00 00 01, 02, 00 02, ...): distinct tokens that a sloppy table key would confuse
+func zeroTokens() func() (message.Token, error) {
+	var n atomic.Uint32
+	return func() (message.Token, error) {
+		k := n.Add(1) - 1
+		v := k/4 + 1
+		tok := make([]byte, k%4, 8)
+		if v > 0xff {
+			tok = append(tok, byte(v>>8))
+		}
+		return append(tok, byte(v)), nil
+	}
+}
+
 func newUDPPeer() *udpPeer {
-	return &udpPeer{u: conns.NewUDP(func(cfg *udpclient.Config) { cfg.TransmissionNStart = 8 }), answered: map[int32]bool{}, mid: 40000}
+	return &udpPeer{u: conns.NewUDP(func(cfg *udpclient.Config) { cfg.TransmissionNStart = 8; cfg.GetToken = zeroTokens() }), answered: map[int32]bool{}, mid: 40000}
 }
 func (p *udpPeer) observe(ctx context.Context, path string, cb func(*pool.Message)) (interface {
 	Cancel(ctx context.Context, opts ...message.Option) error
@@ -365,7 +380,7 @@ type tcpPeer struct {
 }
 
 func newTCPPeer() *tcpPeer {
-	p := &tcpPeer{t: conns.NewTCP(func(*tcpclient.Config) {}), answered: map[string]bool{}}
+	p := &tcpPeer{t: conns.NewTCP(func(cfg *tcpclient.Config) { cfg.GetToken = zeroTokens() }), answered: map[string]bool{}}
 	p.t.Settle()
 	return p
 }
